@@ -606,6 +606,21 @@ SEEDS = [
             }
             self.delete_index(index);
             index = self.root;""", note='the last expired entry is cut off without being released: one slot lost each time the tree runs empty through expiry'),
+    dict(id='RT1-set-delete-repair-root-parent-test', props=['C02'], file='src/set/tree.rs',
+         old="""        // Case 1: Examined node is root, end of recursion
+        if n_index == self.root {
+            // do not color root to black
+            return;
+        }
+
+        let mut s_index = self.get_sibling(n_index);""",
+         new="""        // Case 1: Examined node is root, end of recursion
+        if self.node(self.root).parent == EMPTY_REF {
+            // do not color root to black
+            return;
+        }
+
+        let mut s_index = self.get_sibling(n_index);""", note='"is the root" written as a test of the root\'s own parent link: always true, the removal repair never runs (the tests never need it)'),
     dict(id='PG1-key-expire-root-no-removal', props=['C10'], file='src/key/tree.rs',
          old="""                return index;
             }
